@@ -13,6 +13,11 @@ func (t *tree) Insert(ctx context.Context, key, value []byte) error {
 	if value == nil {
 		value = []byte{}
 	}
+	if key == nil {
+		// A nil key is the empty key. Leaf nodes always carry a non-nil key, the same as after
+		// they have been loaded from the node database.
+		key = []byte{}
+	}
 	// The length of a key in bits must fit the depth type, otherwise it wraps around.
 	if len(key) > node.MaxKeyLength {
 		return ErrKeyTooLong
